@@ -288,14 +288,14 @@ def gen_any_semver(rng):
 def run(ctx):
     quick = ctx.tier == "quick"
     rng = ctx.sub_rng("c07")
-    ncanon = 4000 if quick else 150000
+    ncanon = 25000 if quick else 200000
     canon = [gen_fields(rng, U32) for _ in range(ncanon)]
-    npep = 4000 if quick else 150000
+    npep = 25000 if quick else 200000
     peps = sorted(set(gen_pep(rng) for _ in range(npep)))
-    nsem = 3000 if quick else 100000
+    nsem = 15000 if quick else 150000
     sems = sorted(set(gen_any_semver(rng) for _ in range(nsem)))
     bigs = []
-    for _ in range(600 if quick else 20000):
+    for _ in range(4000 if quick else 30000):
         f = gen_fields(rng, U32)
         slot = rng.choice(SLOTS)
         b = rng.choice(BIG)
@@ -305,7 +305,7 @@ def run(ctx):
             f[slot] = b
         bigs.append((f, slot))
     # u64-range SemVer-only path: canonical shapes with numbers up to u64 must survive semver->semver
-    wide = [gen_fields(rng, U64) for _ in range(600 if quick else 20000)]
+    wide = [gen_fields(rng, U64) for _ in range(4000 if quick else 30000)]
     allbad = []
     for r in core.pmap(work_canonical, [(ctx.bins, p) for p in core.split_even(canon, 32)]):
         ctx.evaluations += r["n"]
